@@ -8,6 +8,9 @@ sealed with, which corruption was applied) and then realised twice:
   * in bytes, sealed by harness/ref/bcast_ref.py (cryptography's AEAD), fed to the real
     controller's detection callback;
   * as a symbolic term (PSeal / PJunk / PShort / PEmpty) for the extracted model.
+The BLE address the advertisement is sent from is a separate input (a pairing's
+AccessoryAddress or an unknown one); the model has no such input: routing is by the id in the
+frame only (bcast_routing), so the same term history must give the same result from any address.
 Observable after every advertisement: listener calls per pairing (aid, iid, value), the
 stored state number (description.state_num) of every pairing, escaped exception class.
 The oracle is direct: anything accepted that is not genuine+fresh for that pairing, or a
@@ -67,16 +70,29 @@ def pdb(p):
 
 
 # ------------------------------------------------------------------ events
+PAIRING_NAMES = ("A", "B", "C", "D", "E")
+UNKNOWN_ADDR = "AA:BB:CC:00:00:01"
+
+
+def addr_of(name):
+    """BLE address the advertisement is sent from: a pairing's AccessoryAddress, or one no pairing has"""
+    if name in PAIRING_NAMES:
+        return ":".join(IDS[name][i:i + 2] for i in range(0, 12, 2)).upper()
+    return UNKNOWN_ADDR
+
+
 def ev_seal(to, key, aad, n, pt, label, **mods):
+    # default sender address: the accessory that owns the key (the true sender), else an unknown device
     e = dict(k="seal", to=IDS.get(to, to), key=key, aad=IDS.get(aad, aad), n=n, pt=pt.hex(), label=label,
-             type=ENC, stl=0x36, flip=None, trunc=None, hflip=None, hdrcut=None)
+             type=ENC, stl=0x36, flip=None, trunc=None, hflip=None, hdrcut=None,
+             addr=key if key in PAIRING_NAMES else "U")
     e.update(mods)
     return e
 
 
 def ev_raw(to, payload, label, **mods):
     e = dict(k="raw", to=IDS.get(to, to), payload=payload.hex(), label=label, type=ENC, stl=0x36,
-             flip=None, trunc=None, hflip=None, hdrcut=None)
+             flip=None, trunc=None, hflip=None, hdrcut=None, addr=to if to in PAIRING_NAMES else "U")
     e.update(mods)
     return e
 
@@ -230,7 +246,7 @@ async def _impl_async(world, events):
         mfr = {} if data is None else {76: data}
         if ev["k"] == "noapple" and ev.get("other"):
             mfr = {0x0006: b"\x11\x36" + bytes(22)}
-        dev = _mk_device("AA:BB:CC:00:00:01")
+        dev = _mk_device(addr_of(ev.get("addr") or "U"))
         del calls[:]
         fb0 = fallbacks[0]
         exc = "ok"
@@ -326,7 +342,7 @@ def oracle_history(world, events, steps, check_monotone=True):
             mine = [c for c in calls if c.startswith(p["id"] + ".")]
             if i != t or reason is not None:
                 if after[i] != sns[i] or mine:
-                    r = reason if i == t else "addressed-to-another-pairing"
+                    r = reason if i == t else ("addressed-to-another-pairing" if t is not None else "frame-id-names-no-pairing")
                     out.append(("accepted-not-fresh:" + r,
                                 "pairing %s: advertisement #%d (%s) is not a genuine fresh notification for it (%s) but "
                                 "state %s -> %s, listener calls %s" % (p["name"], idx, ev.get("label"), r, sns[i], after[i], mine), idx))
@@ -375,6 +391,17 @@ def variants(s, n):
     for to in "BCDEX":
         v.append(("framed-to-" + to, ev_seal(to, "A", "A", n, pt_for(n, 11), "wrong-frame-id")))
     v.append(("framed-to-B-aad-B", ev_seal("B", "A", "B", n, pt_for(n, 11), "wrong-frame-id")))
+    # foreign advertising id (belongs to no pairing) x AAD {foreign, A's} x sender address {A's, B's, unknown} x key {A's, B's}:
+    # routing is by the id in the frame only, so every pairing must ignore all of these
+    for fid in ("X", "aabbccddee00"):
+        for aad in (fid, "A"):
+            for addr in ("A", "B", "U"):
+                for key in ("A", "B"):
+                    v.append(("foreign-id-%s-aad-%s-addr-%s-key-%s" % (fid[-2:], "foreign" if aad == fid else "A", addr, key),
+                              ev_seal(fid, key, aad, n, pt_for(n, 11), "foreign-id", addr=addr)))
+    # right id and AAD, sent from another / an unknown address: still genuine (the address is not authenticated)
+    v.append(("genuine-from-addr-B", dict(g, addr="B", label="genuine-other-address")))
+    v.append(("genuine-from-addr-U", dict(g, addr="U", label="genuine-other-address")))
     v.append(("framed-to-D-key-D", ev_seal("D", "D", "D", n, pt_for(n, 11), "no-description")))
     for name, inner in (("inner+1", n + 1), ("inner-1", n - 1), ("inner=s+1", s + 1), ("inner0", 0), ("inner^256", n ^ 256)):
         if inner & 0xFFFF != n:
@@ -522,7 +549,13 @@ def gen_random(tier, r):
                 e = ev_seal(who, who, r.choice([other, "X"]), n, R.plaintext(n, iid, val), "wrong-aad")
             elif x < 0.86:
                 n = s + 1
-                e = ev_seal(r.choice([other, "X", "C", "D", "E"]), who, who, n, R.plaintext(n, iid, val), "wrong-frame-id")
+                if r.random() < 0.5:
+                    fid = r.choice(["X", "aabbccddee00", "010203040507"])
+                    e = ev_seal(fid, r.choice([who, who, other]), r.choice([fid, fid, who]), n, R.plaintext(n, iid, val), "foreign-id",
+                                addr=r.choice([who, who, other, "U"]))
+                else:
+                    e = ev_seal(r.choice([other, "X", "C", "D", "E"]), who, who, n, R.plaintext(n, iid, val), "wrong-frame-id",
+                                addr=r.choice([who, other, "U"]))
             elif x < 0.92:
                 n = s + r.choice([1, 1, 2, 50, 99])
                 inner = r.choice([n + 1, n - 1, s, s + 1, 0, n ^ 0x100, r.randrange(65536)])
